@@ -724,6 +724,11 @@ def explore(ctx, cases, label=""):
                 gc.enable()
         ctx.case(case_text(case), sorted(tags))
         if bad is not None:
+            seen = ctx.extra.setdefault("_shrunk", {})
+            seen[bad[0]] = seen.get(bad[0], 0) + 1
+            if seen[bad[0]] > 2:      # same defect class again: count it, do not shrink again
+                ctx.violation(f"monitor:{bad[0]}", "", case)
+                continue
             small = normalise(shrink_case(case, bad[0]))
             l2, o2, _, b2, _ = judge(small)
             b2 = b2 or bad
@@ -776,6 +781,13 @@ def corpus_cases():
 
 def run(ctx):
     rng = ctx.rng
+    try:
+        _run(ctx, rng)
+    finally:
+        ctx.extra.pop("_shrunk", None)
+
+
+def _run(ctx, rng):
     explore(ctx, corpus_cases(), label="corpus: ")
     n = 120000 if ctx.thorough() else 10000
     batch = 2500
@@ -792,3 +804,4 @@ def run(ctx):
 
 def replay(ctx, data):
     explore(ctx, [normalise(data["case"])], label="replay: ")
+    ctx.extra.pop("_shrunk", None)
